@@ -173,6 +173,7 @@ fn main() {
         let ap = inst.random_abstract(nops, [3, 6, 10, 16][k % 4], 3);
         progs.push((inst.instantiate(&ap), mode));
     }
+    progs.extend(pgen::directed_programs().into_iter().filter(|(p, _, _)| p.nch() > 0).map(|(p, m, _)| (p, m)));
     for (k, (p0, mode)) in progs.iter().enumerate() {
         let (p, specs) = export_clause_operands(p0);
         let npt = if quick { 2 } else { 4 };
